@@ -14,7 +14,7 @@ from .csrc import ExtractError
 
 # rules whose case body is translated into the IR and proved equal to the Op.step case in Peg/TieSkel.lean
 IR_RULES = ["RULE_IF", "RULE_IFNOT", "RULE_NOT", "RULE_DROP", "RULE_ONLY_TAGS", "RULE_SUB", "RULE_ACCUMULATE", "RULE_CAPTURE",
-            "RULE_POSITION", "RULE_CONSTANT", "RULE_GROUP", "RULE_NTH", "RULE_ERROR", "RULE_BETWEEN", "RULE_TO", "RULE_THRU", "RULE_TIL", "RULE_CHOICE", "RULE_SEQUENCE", "RULE_LENPREFIX", "RULE_SPLIT", "RULE_REPLACE", "RULE_MATCHTIME"]
+            "RULE_POSITION", "RULE_CONSTANT", "RULE_GROUP", "RULE_NTH", "RULE_ERROR", "RULE_BETWEEN", "RULE_TO", "RULE_THRU", "RULE_TIL", "RULE_CHOICE", "RULE_SEQUENCE", "RULE_LENPREFIX", "RULE_SPLIT", "RULE_REPLACE", "RULE_MATCHTIME", "RULE_NCHAR", "RULE_NOTNCHAR", "RULE_LINE", "RULE_COLUMN", "RULE_ARGUMENT"]
 
 
 class Unsupported(Exception):
@@ -339,6 +339,9 @@ class Extract:
             m2 = re.fullmatch(r"(\w+) - s -> text_start", " ".join(inner))
             if m2 and m2.group(1) in self.ptr:
                 return "(.posOf %d)" % self.ptr[m2.group(1)]
+        m = re.fullmatch(r"janet_wrap_number \( \(? ?(\w+) \. (line|col) ?\)? \)", s)
+        if m and m.group(1) in self.lc:
+            return "(.%s %d)" % ("lineOf" if m.group(2) == "line" else "colOf", self.lc[m.group(1)])
         m = re.fullmatch(r"s -> constants \[ (.*) \]", s)
         if m:
             return "(.const %d)" % self.word_k(toks[4:-1])
@@ -452,6 +455,9 @@ class Extract:
         m = re.fullmatch(r"(\w+) < (\w+) - 1", s)
         if m and m.group(1) in self.num and m.group(2) in self.word:
             return ".numLtWordPred %d %s" % (self.num[m.group(1)], self.we([m.group(2)]))
+        m = re.fullmatch(r"(\w+) \+ (\w+) > s -> text_end", s)
+        if m and m.group(1) in self.ptr and m.group(2) in self.word:
+            return ".ptrPlusGtEnd %d %s" % (self.ptr[m.group(1)], self.we([m.group(2)]))
         m = re.fullmatch(r"(\w+) (<=|>) s -> text_end", s)
         if m and m.group(1) in self.ptr:
             return ".%s %d" % ("ptrLeEnd" if m.group(2) == "<=" else "ptrGtEnd", self.ptr[m.group(1)])
@@ -499,6 +505,21 @@ class Extract:
         if m and m.group(2) in self.posalias:
             self.lc[m.group(1)] = self.posalias[m.group(2)]
             return []
+        m = re.fullmatch(r"LineCol (\w+) = get_linecol_from_position \( s , \( (\w+) - s -> text_start \) \)", s)
+        if m and m.group(2) in self.ptr:
+            self.lc[m.group(1)] = self.ptr[m.group(2)]
+            return []
+        # RULE_ARGUMENT: int32_t index = ((int32_t *)rule)[k];  Janet capture = (index >= s->extrac) ? janet_wrap_nil() : s->extrav[index];
+        m = re.fullmatch(r"int32_t (\w+) = \( rule \) \[ (\d+) \]", s)
+        if m:
+            self.word[m.group(1)] = int(m.group(2))
+            self.signed_word = getattr(self, "signed_word", set()) | {m.group(1)}
+            return []
+        m = re.fullmatch(r"Janet (\w+) = \( (\w+) >= s -> extrac \) \? janet_wrap_nil \( \) : s -> extrav \[ (\w+) \]", s)
+        if m and m.group(2) == m.group(3) and m.group(2) in getattr(self, "signed_word", set()):
+            if m.group(1) not in self.val:
+                self.val[m.group(1)] = len(self.val)
+            return [".valDef %d (.argAt %d)" % (self.val[m.group(1)], self.word[m.group(2)])]
         m = re.fullmatch(r"int32_t (\w+) = (?:\( )?(\w+) - s -> text_start(?: \))?", s)
         if m and m.group(2) in self.ptr:
             self.posalias[m.group(1)] = self.ptr[m.group(2)]
@@ -719,6 +740,9 @@ def conv(stmts, ex, end=".fall", loops=None):
             return ".retNull"
         if len(toks) == 1 and toks[0] in ex.ptr:
             return "(.ret %d)" % ex.ptr[toks[0]]
+        m = re.fullmatch(r"(\w+) \+ (\w+)", " ".join(toks))
+        if m and m.group(1) in ex.ptr and m.group(2) in ex.word:
+            return "(.retPlus %d %s)" % (ex.ptr[m.group(1)], ex.we([m.group(2)]))
         if toks == ["s", "->", "text_end"]:          # return s->text_end
             t = ex.new_ptr("%ret" + str(len(ex.ptr)))
             return "(.seq (.endSave %d) (.ret %d))" % (t, t)
